@@ -110,6 +110,36 @@ func (r *CIDReader) CheckCanonical() error {
 	return CheckCanonical(r.buf.Bytes())
 }
 
+// EncodeStreaming is ipld.EncodeStreaming, except that an error of the
+// underlying io.Writer is always reported: some codecs (DAG-JSON) drop the
+// errors of their writes and return nil for output that was never written.
+func EncodeStreaming(w io.Writer, node ipld.Node, encFn func(ipld.Node, io.Writer) error) error {
+	lw := &errLatchWriter{w: w}
+	if err := encFn(node, lw); err != nil {
+		return err
+	}
+	return lw.err
+}
+
+// errLatchWriter remembers the first error of the wrapped io.Writer and
+// keeps failing afterwards.
+type errLatchWriter struct {
+	w   io.Writer
+	err error
+}
+
+func (l *errLatchWriter) Write(p []byte) (int, error) {
+	if l.err != nil {
+		return 0, l.err
+	}
+	n, err := l.w.Write(p)
+	if err == nil && n < len(p) {
+		err = io.ErrShortWrite
+	}
+	l.err = err
+	return n, err
+}
+
 var _ io.Writer = (*CIDWriter)(nil)
 
 // CIDWriter wraps an io.Writer and includes a hash.Hash that is
